@@ -48,6 +48,8 @@ Definition H_of (hp : bytes) : bytes -> bytes := fun _ => hp ++ repeat 0 12.
 Inductive case :=
 (* to_db_*(k) = db (None = panic), then from_db_*(db) = back; hp = hash prefix seen for k's bytes *)
 | CRound (k : lkey) (hp : bytes) (db : option bytes) (back : option lkey)
+(* to_db_partition_key(n, p) = db (node key, partition byte), then from_db_partition_key(db) = back *)
+| CPartKey (n : bytes) (p : N) (hp : bytes) (db : option (bytes * N)) (back : option (bytes * N))
 (* from_db_* on arbitrary bytes *)
 | CFrom (which : N) (db : bytes) (back : option lkey)
 (* two sorted keys and the observed Ord::cmp of their db sort keys *)
@@ -68,6 +70,15 @@ Definition check (c : case) : bool :=
       opt_eqb beqb m_db db &&
       match m_db with
       | Some d => opt_eqb lkey_eqb (from_any (which_of k) d) back
+      | None => true
+      end
+  | CPartKey n p hp db back =>
+      let pair_eqb (a b : bytes * N) := beqb (fst a) (fst b) && (snd a =? snd b) in
+      (length hp =? HASHED_PREFIX_LENGTH)%nat &&
+      let m_db := to_db_partition_key (H_of hp) n p in
+      opt_eqb pair_eqb m_db db &&
+      match m_db with
+      | Some d => opt_eqb pair_eqb (from_db_partition_key d) back
       | None => true
       end
   | CFrom which db back => opt_eqb lkey_eqb (from_any which db) back
